@@ -118,6 +118,7 @@ PROFILES = {
     "overrideset": dict(BASE, ctx_types=("override", "attr"), p_ctx=0.5, nvars=2, p_read=0.5, p_set=0.5, p_share=0.1),
     "again": dict(BASE, ntasks=(2, 7), nseg=(2, 4), nleaf=(1, 4), p_rep=0.35, p_reuse=0.35, p_lazy=0.15, p_lazyfail=0.05, p_share=0.1, p_reyield=0.2,
                   flush_modes=("ok", "ok", "itemerr"), p_catch=0.4, p_errleaf=0.05),
+    "nestself": dict(BASE, ntasks=(2, 6), nkinds=(2, 2), bases=(0, 1), nest=True, nestself=0.8, p_item=0.55, p_task=0.3, p_catch=0.3),
     "nestflush": dict(BASE, ntasks=(2, 7), nkinds=(2, 3), bases=(0, 1), nest=True, p_item=0.55, p_task=0.3, p_share=0.1, p_catch=0.3, ncalls=2),
     "cancelsession": dict(BASE, ntasks=(3, 7), nkinds=(1, 2), bases=(0, 1), p_cancelb=0.45, p_catch=0.6, p_share=0.1, nseg=(2, 4), ncalls=3),
     "cancel": dict(BASE, ntasks=(3, 8), nkinds=(1, 3), bases=(0, 1), p_cancelb=0.35, p_catch=0.5, p_share=0.1, nseg=(2, 4)),
@@ -371,7 +372,12 @@ class Gen(object):
             kinds[0]["flush"] = "nest"
             kinds[0]["nest"] = len(tasks) + 1
             kinds[1]["flush"] = "ok"
-            tasks.append({"segs": [seg([], term("yield", S("Lst", 0, [S("I", 2)] * r.randint(1, 3)))), seg([], term("return"))]})
+            if p.get("nestself") and r.random() < p["nestself"]:
+                # ... or of kind 1 itself: the follow-up request joins a FRESH kind-1 batch (only the first kind-1 flush nests)
+                kinds[0]["nestself"] = 1
+                tasks.append({"segs": [seg([], term("yield", S("Lst", 0, [S("I", 1)] * r.randint(1, 2)))), seg([], term("return"))]})
+            else:
+                tasks.append({"segs": [seg([], term("yield", S("Lst", 0, [S("I", 2)] * r.randint(1, 3)))), seg([], term("return"))]})
         calls = [{"root": u, "conv": r.choice(p["convs"])} for u in roots]
         prog = program(tasks, kinds, self.ctxs, p["nvars"], calls)
         if p.get("maxstack"):
